@@ -2,8 +2,12 @@
 mod base;
 mod bfs;
 mod checks_e1;
+mod checks_e2;
+mod checks_e3;
 mod cmds;
 mod e1;
+mod e2;
+mod e3;
 mod refs;
 mod report;
 mod session;
@@ -32,8 +36,13 @@ fn main() {
     let mut rep = Report { prop: prop.clone(), tier: tier.clone(), ..Default::default() };
     match prop.as_str() {
         "C01" => checks_e1::c01(&mut rep, &tier, seed),
+        "C02" => checks_e2::c02(&mut rep, &tier, seed),
+        "C04" => checks_e2::c04(&mut rep, &tier, seed),
         "C05" => checks_e1::c05(&mut rep, &tier, seed),
         "C06" => checks_e1::c06(&mut rep, &tier, seed, "C06"),
+        "C07" => checks_e3::c07(&mut rep, &tier),
+        "C08" => checks_e3::c08(&mut rep, &tier),
+        "C17" => checks_e3::c17(&mut rep, &tier),
         "C10" => checks_e1::c10(&mut rep, &tier, seed),
         "C15" => checks_e1::c06(&mut rep, &tier, seed, "C15"),
         _ => {
